@@ -15,6 +15,8 @@ Stmt (JSON lists):
   ["del", npick, apick]                delete one attribute
   ["rebind", npick, name, kind, tpick] node.name = existing node / Variable
   ["swap", npick, apick, bpick]
+  ["readmeta", vpick]                  acc += gain(v) * sum(v), gain = metadata
+  ["setmeta", vpick, g]                v.gain = g (in-place metadata edit)
 """
 from __future__ import annotations
 
@@ -27,7 +29,8 @@ from hypothesis import strategies as st
 from harness import nnx_graph as G
 
 NEW_NAMES = ['n0', 'n1', 'z', 'a']
-STRUCTURAL = {'addvar', 'addnode', 'addstatic', 'del', 'rebind', 'swap'}
+STRUCTURAL = {'addvar', 'addnode', 'addstatic', 'del', 'rebind', 'swap',
+              'setmeta'}
 
 
 def reachable(args):
@@ -96,6 +99,14 @@ def run_program(prog, args, x, ret=None):
     elif op == 'read':
       if vars_:
         acc = acc + jnp.sum(vars_[stmt[1] % len(vars_)].value)
+    elif op == 'readmeta':
+      if vars_:
+        v = vars_[stmt[1] % len(vars_)]
+        # metadata is static Python data: a plain float factor
+        acc = acc + float(v.get_metadata().get('gain', 1.0)) * jnp.sum(v.value)
+    elif op == 'setmeta':
+      if vars_:
+        vars_[stmt[1] % len(vars_)].gain = float(stmt[2])
     elif op == 'addvar':
       n = nodes[stmt[1] % len(nodes)]
       setattr(n, stmt[2], G.VAR_CLS[stmt[3]](x * stmt[4] + jnp.zeros((2,))))
@@ -137,14 +148,18 @@ def is_structural(prog):
   return any(s[0] in STRUCTURAL for s in prog)
 
 
-def stmt_strategy(structural=True):
+def stmt_strategy(structural=True, meta_edit=False):
   pick = st.integers(0, 20)
   coef = st.sampled_from([-1, 0, 1, 2])
   base = [
       st.tuples(st.just('set'), pick, coef, st.sampled_from([-1, 1, 2])),
       st.tuples(st.just('set'), pick, coef, st.sampled_from([-1, 1, 2])),
       st.tuples(st.just('read'), pick),
+      st.tuples(st.just('readmeta'), pick),
   ]
+  if meta_edit:
+    base += [st.tuples(st.just('setmeta'), pick, st.sampled_from([2, 5, 0.5]))
+             ] * 2
   if structural:
     name = st.sampled_from(NEW_NAMES)
     base += [
@@ -168,8 +183,9 @@ def return_strategy():
                             st.integers(0, 20)).map(list), max_size=2)
 
 
-def program_strategy(structural=True, min_size=1, max_size=6):
-  return st.lists(stmt_strategy(structural), min_size=min_size,
+def program_strategy(structural=True, min_size=1, max_size=6,
+                     meta_edit=False):
+  return st.lists(stmt_strategy(structural, meta_edit), min_size=min_size,
                   max_size=max_size)
 
 
